@@ -34,7 +34,7 @@ type vpSrv struct {
 }
 
 type vpSrvOpts struct {
-	Sched             int // 0 default (RFC 9218), 1 round-robin, 2 random, 3 RFC 7540 priority, 4 RFC 7540 with write throttling
+	Sched             int // 0 RFC 9218 (the default from Go 1.27 on), 1 round-robin (today's default), 2 random, 3 RFC 7540 priority, 4 RFC 7540 with write throttling
 	MaxStreams        uint32
 	MaxReadFrame      uint32
 	UploadPerConn     int32
@@ -47,6 +47,10 @@ type vpSrvOpts struct {
 
 func vpSched(k int) func() WriteScheduler {
 	switch k {
+	case 0:
+		// Named explicitly: with the Go releases available here the server's default is
+		// still the round-robin scheduler (client_priority_go126.go).
+		return VPNewRFC9218WriteScheduler
 	case 1:
 		return VPNewRoundRobinWriteScheduler
 	case 2:
